@@ -276,8 +276,8 @@ impl Bdd {
             return self.zero;
         }
         if self.is_zero(g) && h == f {
-            debug!("ite(F,0,F) => F");
-            return f;
+            debug!("ite(F,0,F) => 0");
+            return self.zero;
         }
 
         // Standard triples:
